@@ -26,12 +26,12 @@ CLAIMED = {
  "C01": dict(
    level="model_checking", design="§3 C01, §2.4",
    technique="explicit-state search over operation programs on the real engine (deterministic controlled scheduler, state de-duplication by canonical implementation state) against a map reference model",
-   text="All programs up to depth 4-5 (5-6 thorough) over {put, delete, 3-key commit, delete+put commit, rollback, flush, background-flush-to-quiescence, reopen, compact, compact-range} x 4-5 configurations that move data between active table, immutable tables and SSTables at different moments are executed on the real EngineFacade; after each program every key (incl. a binary key and a never-written key) is read and compared with the model. A value-shape sub-run pushes empty, nil, 1 B, one-record, fragmented, multi-block values and a 4 KiB key through all maintenance sequences of length <= 3.",
+   text="All programs up to depth 4-5 (5-6 thorough) over {put, delete, 3-key commit, delete+put commit, rollback, flush, background-flush-to-quiescence, reopen, compact, compact-range} x 4-5 configurations that move data between active table, immutable tables and SSTables at different moments are executed on the real EngineFacade; after each program every key (incl. a binary key and a never-written key) is read and compared with the model. A value-shape sub-run pushes empty, nil, 1 B, one-record, fragmented, multi-block values, a 4 KiB key and a 90 KB commit issued behind a small write through all maintenance sequences of length <= 3 (sync immediate / none / batch).",
    note="Trusted: the controlled scheduler runs background threads only at explicit bg steps or when the client waits (one legal schedule; others are C06). State key soundness argued in DESIGN §2.4. Bounds: depth, 3 keys."),
  "C02": dict(
    level="fault_enumeration", design="§3 C02, §2.3",
    technique="exhaustive crash-point and torn-write enumeration over the recorded file-system call log of every explored program; each crash state recovered by the real engine and compared with the admissible history prefixes",
-   text="For every program of the explicit-state search (depth 3-4 quick, 4-5 thorough; sync immediate/none/batch; memtable 32 MiB / 1 B, max memtables 2-4) every prefix of the file-system call log inside the last operation and every torn variant of each write is materialised and opened with the real engine: the recovered state must equal the model after an admissible number of operations (acknowledged..issued with synchronous logging, any prefix otherwise; a transaction is one operation), opening must succeed, and after 2 more writes, a clean close and a reopen state and sequence stamps must continue correctly.",
+   text="For every program of the explicit-state search (depth 3-4 quick, 4-5 thorough; sync immediate/none/batch; memtable 32 MiB / 1 B, max memtables 2-4) every prefix of the file-system call log inside the last operation and every torn variant of each write is materialised and opened with the real engine: the recovered state must equal the model after an admissible number of operations (acknowledged..issued with synchronous logging, any prefix otherwise; a transaction is one operation), opening must succeed, and after 2 more writes, a clean close and a reopen state and sequence stamps must continue correctly. A shape sub-run does the same for a 90 KB commit and a 70 KB put issued behind small writes (larger than the log buffers) and for the step after them.",
    note="Process-death crash model (completed writes survive; fsync irrelevant; power loss not modelled). One open known finding (torn write inside a batch) is listed in known_findings.jsonl."),
  "C05": dict(
    level="model_checking", design="§3 C05",
@@ -41,7 +41,7 @@ CLAIMED = {
  "C08": dict(
    level="model_checking", design="§3 C08",
    technique="explicit-state search over write/flush/restart programs on the real engine; oracle on the log read back and on the reported last sequence after every step",
-   text="All programs up to depth 5-6 (6-7 thorough) over {put, delete, 3-entry and 1-entry commits, flush, bg, reopen} x configurations: the reported last sequence never decreases (also across reopen), the log directory read back holds exactly the program's writes in issue order, each stamped strictly higher than every earlier write, batch entries stamped alike. After crash recovery the same stamp rule is applied by C02's continuation step.",
+   text="All programs up to depth 5-6 (6-7 thorough) over {put, delete, 3-entry and 1-entry commits, flush, bg, reopen} x configurations: the reported last sequence never decreases (also across reopen), the log directory read back holds exactly the program's writes in issue order, each stamped strictly higher than every earlier write, batch entries stamped alike; one configuration makes every reopening start a new log file. Concurrent part: 4 scenarios in which two client threads write while a flush rotates the log are explored over all interleavings up to 2 (3) deviations; the stamp of every acknowledged write must exceed the stamp of every write acknowledged before it started. After crash recovery the same stamp rule is applied by C02's continuation step.",
    note="Stamps are read from the log (what replication ships)."),
  "C03": dict(
    level="model_checking", design="§3 C03",
@@ -56,7 +56,7 @@ CLAIMED = {
  "C06": dict(
    level="model_checking", design="§3 C06, §2.2",
    technique="stateless model checking of the real engine: exhaustive interleaving exploration under a controlled scheduler (deviation bound, happens-before caching) with a porcupine linearizability oracle",
-   text="10 scenarios (2-3 client threads x 1-2 put/get/delete on colliding keys; the engine's own background flush thread; explicit flush and compaction callers; memtable 1 B so that every write switches the table, signals the flush and rotates the log) are explored over all interleavings up to 2 deviations (3 thorough; one 3-thread scenario one less). Every recorded call/return history must be linearizable against a whole-store model with failed writes as no-ops, final reads included; every acknowledged put must be in the log exactly once and no failed put at all.",
+   text="11 scenarios (2-3 client threads x 1-2 put/get/delete on colliding keys; the engine's own background flush thread; explicit flush and compaction callers; memtable 1 B so that every write switches the table, signals the flush and rotates the log) are explored over all interleavings up to 2 deviations (3 thorough; the two 3-thread scenarios around an explicit flush one less). Every recorded call/return history must be linearizable against a whole-store model with failed writes as no-ops, final reads included; every acknowledged put must be in the log exactly once and no failed put at all.",
    note="SC interleavings of visible operations; data races are C07's subject. Bounds: threads, operations per thread, deviation bound."),
  "C04": dict(
    level="model_checking", design="§3 C04, §2.2",
@@ -90,8 +90,8 @@ CLAIMED = {
    note="The window inside Manager.Start before the read-only switch is not flagged. The manager unit uses real loopback listeners."),
  "C13": dict(
    level="model_checking", design="§3 C13, §2.5",
-   technique="exhaustive enumeration of fault schedules (drop, duplicate, reorder, connection break on the first 10 stream messages, <=1 / <=2 faults) over deterministic fair executions of the real Primary and Replica in discrete-event virtual time, with a recording applier as oracle",
-   text="The real replication.Primary (on a real engine, observer + poll + heartbeat loops) and the real replication.Replica (state machine, batch applier, engine applier on a second read-only engine) run over an in-memory link that replaces gRPC (bounded window, message copying, connection semantics). 16 scenarios (single writes incl. delete, a 3-entry transaction, flushes with log rotation; replica joins before/during/after the writes or is restarted; default and uncompressed configuration) x every fault vector within the bound: the sequence of entries handed to the replica's engine must equal the primary's log in order, none skipped, none applied twice; the reported applied sequence never decreases nor exceeds the highest applied entry.",
+   technique="exhaustive enumeration of fault schedules (drop, duplicate, late duplicate, reorder by one or two messages, connection break on the first 10 stream messages, <=1 / <=2 faults) over deterministic fair executions of the real Primary and Replica in discrete-event virtual time, with a recording applier as oracle",
+   text="The real replication.Primary (on a real engine, observer + poll + heartbeat loops) and the real replication.Replica (state machine, batch applier, engine applier on a second read-only engine) run over an in-memory link that replaces gRPC (bounded window, message copying, connection semantics). 16 scenarios (single writes incl. delete, a 3-entry transaction, flushes with log rotation; replica joins before/during/after the writes or is restarted; default and uncompressed configuration) x every fault vector within the bound: the sequence of entries handed to the replica's engine must equal the primary's log in order, none skipped, none applied twice; the reported applied sequence never decreases nor exceeds the highest applied entry. Part B: explicit-state search over every delivery sequence (depth 5 / 7) of the 15 whole-sequence batches of a 5-sequence history to the real WALBatchApplier and to the real Replica message handler, same oracle after every delivery plus: the in-order batch is applied completely, any other batch applies nothing, a forward gap is answered by a retransmission request.",
    note="Timer races are not explored in these runs (due-time order). One open known finding (restart re-applies the history)."),
  "C14": dict(
    level="model_checking", design="§3 C14, §2.5",
